@@ -68,10 +68,10 @@ func (c Cfg) Config() reftable.Config {
 
 // Ref kinds.
 const (
-	KDel = 0
-	KVal = 1
+	KDel    = 0
+	KVal    = 1
 	KPeeled = 2
-	KSym = 3
+	KSym    = 3
 )
 
 type Ref struct {
